@@ -94,10 +94,14 @@ def revocation_cases(ix, b):
         return cases.enum_val(ix, "board::piece::Kind", k, [cases.enum_val(ix, "board::piece::Color", c)])
     from . import castlecases
     out = {}
+    n_undecided = 0
     for (mk, mc, ms, cap, cd) in castlecases.all_cases(b):
-        inp = {"*new_move.piece": kind(mk, mc), "*new_move.start": sq(*ms), "*new_move.dest": sq(*cd),
-               "*new_move.is_castles": ("const", 0, "bool"),
-               "*new_move.captured_piece": cases.option("Some", [kind(*cap)]) if cap else cases.option("None")}
+        if n_undecided > 12:
+            # the walk is not pinned down by the case (an unfamiliar way of passing the move record): give up, undecided
+            out[(mk, mc, ms, cap, cd)] = (set(), set(), True, None)
+            continue
+        inp = castlecases.inputs(ix, (mk, mc, ms, cap, cd), None, b)
+        pre = [k for k in inp if k.endswith(".piece")][0][:-len("piece")]
         run = cases.run(ix, b, inp)
         fields, other = set(), set()
         for p in run.paths:
@@ -116,7 +120,7 @@ def revocation_cases(ix, b):
             # that right alone being there must be enough for it to be lost
             inp2 = dict(inp)
             for f in RIGHTS:
-                inp2["*new_move.castling_rights." + f] = cases.enum_val(ix, "board::ply::castling::CastlingStatus", "Available" if f == want_f else "Unavailable")
+                inp2[pre + "castling_rights." + f] = cases.enum_val(ix, "board::ply::castling::CastlingStatus", "Available" if f == want_f else "Unavailable")
             run2 = cases.run(ix, b, inp2)
             lost = True
             for p in run2.paths:
@@ -127,6 +131,7 @@ def revocation_cases(ix, b):
             if run2.overflow or any(p.end not in ("return", "panic", "unreachable") for p in run2.paths):
                 undecided = True
             always = (always or set()) | ({want_f} if lost else set())
+        n_undecided += 1 if undecided else 0
         out[(mk, mc, ms, cap, cd)] = (fields, other, undecided, always)
     return out
 
